@@ -10,7 +10,7 @@ Main results
                                  docstring, literal value; no name twice            (all lists of the subset)
 * `Builder.documented_eq_bound_partial`  nothing missing, nothing invented, nothing twice     (corollary)
 * `Builder.kind_eq`, `kind_eq_iff`   kind from decorators = class of the bound object, for ALL decorator lists
-* `Builder.exception_eq`         exception-ness through the bases, full for the generated tables
+* `Builder.exception_eq_partial` exception-ness through the bases, for the generated tables and unqualified base names
                                  (`exception_tables_agree`: no name on which the tables disagree)
 * `Builder.docstring_eq`         docstring = cleandoc of the interpreter's `__doc__`; coroutine flag
 * `Builder.value_eq`, `infer_type_sound`, `infer_elements_sound`   inferred type = `type(value).__name__`
@@ -302,14 +302,24 @@ def DocB (m : Member) : Prop := (m.cls = .function ∧ (m.kind = .method ∨ m.k
 /-- a function object or a class: objects whose `__doc__` can be assigned -/
 def DocP (o : PySem.PyObj) : Prop := (∃ a d, o = .func a d) ∨ (∃ e d, o = .cls e d)
 
+/-- a method of the class being built, decorated/wrapped with classmethod or staticmethod or not -/
+def MethK (m : Member) : Prop :=
+  m.cls = .function ∧ (m.kind = .method ∨ m.kind = .staticMethod ∨ m.kind = .classMethod)
+/-- a function object, possibly inside `classmethod(...)` / `staticmethod(...)` -/
+def PFun : PySem.PyObj → Prop
+  | .func _ _ => True
+  | .cm _ => True
+  | .sm _ => True
+  | _ => False
+
 structure Rel (c : Ctx) (sn : Seen) (s : State) (ns : PySem.Ns) : Prop where
   views : s.contents.map (viewB c) = ns.map (viewP c)
   names : s.contents.map (·.name) = sn.names
   nodup : sn.names.Nodup
   noOv : ∀ m ∈ s.contents, m.overloads = 0
   plainSub : ∀ n ∈ sn.plain, n ∈ sn.names
-  plainB : ∀ n ∈ sn.plain, ∀ m ∈ s.contents, m.name = n → m.cls = .function ∧ m.kind = .method
-  plainP : ∀ n ∈ sn.plain, ∀ b ∈ ns, b.1 = n → ∃ a d, b.2 = .func a d
+  plainB : ∀ n ∈ sn.plain, ∀ m ∈ s.contents, m.name = n → MethK m
+  plainP : ∀ n ∈ sn.plain, ∀ b ∈ ns, b.1 = n → PFun b.2
   docSub : ∀ n ∈ sn.docable, n ∈ sn.names
   docB : ∀ n ∈ sn.docable, ∀ m ∈ s.contents, m.name = n → DocB m
   docP : ∀ n ∈ sn.docable, ∀ b ∈ ns, b.1 = n → DocP b.2
@@ -432,7 +442,7 @@ theorem put_bind_views (c : Ctx) (l : List Member) (ns : PySem.Ns) (m : Member) 
 structure NewFacts (sn : Seen) (m : Member) (o : PySem.PyObj) (plain' doc' vars' : List Name) (cur' : Option Name) : Prop where
   ov : m.overloads = 0
   plain : ∀ k ∈ plain', (k ∈ sn.plain ∧ k ≠ m.name) ∨
-            (k = m.name ∧ m.cls = .function ∧ m.kind = .method ∧ ∃ a d, o = .func a d)
+            (k = m.name ∧ MethK m ∧ PFun o)
   doc : ∀ k ∈ doc', (k ∈ sn.docable ∧ k ≠ m.name) ∨ (k = m.name ∧ DocB m ∧ DocP o)
   vars : ∀ k ∈ vars', (k ∈ sn.vars ∧ k ≠ m.name) ∨ (k = m.name ∧ m.cls = .attribute ∧ m.kind ≠ .property)
   cur : ∀ k, cur' = some k → k = m.name ∧ m.cls = .attribute ∧ m.kind ≠ .property
@@ -462,7 +472,7 @@ theorem rel_put {c : Ctx} {sn : Seen} {s : State} {ns : PySem.Ns} (R : Rel c sn 
       · subst h'; exact absurd e.symm h.2
       · exact R.plainB k h.1 m' h'.1 e
     · rcases mem_put hm' with h' | h'
-      · subst h'; exact ⟨h.2.1, h.2.2.1⟩
+      · subst h'; exact h.2.1
       · exact absurd (e.trans h.1) h'.2
   · intro k hk b hb e
     rcases F.plain k hk with h | h
@@ -470,7 +480,7 @@ theorem rel_put {c : Ctx} {sn : Seen} {s : State} {ns : PySem.Ns} (R : Rel c sn 
       · subst h'; exact absurd e.symm h.2
       · exact R.plainP k h.1 b h'.1 e
     · rcases mem_bind hb with h' | h'
-      · subst h'; exact h.2.2.2
+      · subst h'; exact h.2.2
       · exact absurd (e.trans h.1) h'.2
   · intro k hk
     rw [mem_addName]
@@ -830,7 +840,7 @@ theorem sim_funcDef {c : Ctx} {sn sn' : Seen} {s : State} {ns : PySem.Ns} (R : R
           simp at hk
           rcases hk with hk | hk
           · exact Or.inl (mem_dropName.mp hk)
-          · exact Or.inr ⟨hk, rfl, rfl, _, _, rfl⟩
+          · exact Or.inr ⟨hk, ⟨rfl, Or.inl rfl⟩, trivial⟩
         · intro k hk
           simp at hk
           rcases hk with hk | hk
@@ -876,7 +886,12 @@ theorem sim_funcDef {c : Ctx} {sn sn' : Seen} {s : State} {ns : PySem.Ns} (R : R
         refine rel_put R { name := n, cls := .function, kind := .classMethod, doc := doc.map cleandoc, isAsync := async, hasSig := true }
           (.cm (.func async doc)) ?_ { ov := rfl, plain := ?_, doc := ?_, vars := ?_, cur := by simp }
         · simp [viewB, viewP, postProcess, kindClass, PySem.kindClass, PySem.coroutine, PySem.underlying, PySem.rawDoc, wrapAll, wrapD]
-        · intro k hk; simp at hk; exact Or.inl (mem_dropName.mp hk)
+        · intro k hk
+          cases hci : c.inClass <;> simp [hci] at hk
+          · exact Or.inl (mem_dropName.mp hk)
+          · rcases hk with hk | hk
+            · exact Or.inl (mem_dropName.mp hk)
+            · exact Or.inr ⟨hk, ⟨rfl, Or.inr (Or.inr rfl)⟩, trivial⟩
         · intro k hk; simp at hk; exact Or.inl (mem_dropName.mp hk)
         · intro k hk; exact Or.inl (mem_dropName.mp hk)
       | staticmethod =>
@@ -891,7 +906,12 @@ theorem sim_funcDef {c : Ctx} {sn sn' : Seen} {s : State} {ns : PySem.Ns} (R : R
         refine rel_put R { name := n, cls := .function, kind := .staticMethod, doc := doc.map cleandoc, isAsync := async, hasSig := true }
           (.sm (.func async doc)) ?_ { ov := rfl, plain := ?_, doc := ?_, vars := ?_, cur := by simp }
         · simp [viewB, viewP, postProcess, kindClass, PySem.kindClass, PySem.coroutine, PySem.underlying, PySem.rawDoc, wrapAll, wrapD]
-        · intro k hk; simp at hk; exact Or.inl (mem_dropName.mp hk)
+        · intro k hk
+          cases hci : c.inClass <;> simp [hci] at hk
+          · exact Or.inl (mem_dropName.mp hk)
+          · rcases hk with hk | hk
+            · exact Or.inl (mem_dropName.mp hk)
+            · exact Or.inr ⟨hk, ⟨rfl, Or.inr (Or.inl rfl)⟩, trivial⟩
         · intro k hk; simp at hk; exact Or.inl (mem_dropName.mp hk)
         · intro k hk; exact Or.inl (mem_dropName.mp hk)
 
@@ -997,16 +1017,17 @@ theorem sim_oldStyle {c : Ctx} {sn sn' : Seen} {s : State} {ns : PySem.Ns} (R : 
     | some obj =>
       obtain ⟨hobj, hon⟩ := lookup_some hl
       obtain ⟨hoc, hok⟩ := R.plainB n hpl' obj hobj hon
+      have hcond : (decide (obj.kind = .method) || decide (obj.kind = .staticMethod) || decide (obj.kind = .classMethod)) = true := by
+        rcases hok with h | h | h <;> simp [h]
       -- CPython side: the name is bound to a function
       cases hlp : PySem.lookup ns n with
       | none => rw [plookup_none_iff, R.pnames] at hlp; exact absurd hnn hlp
       | some o =>
         have hmem := plookup_some hlp
-        obtain ⟨a, d, hod⟩ := R.plainP n hpl' (n, o) hmem rfl
-        simp only at hod
+        have hpf : PFun o := R.plainP n hpl' (n, o) hmem rfl
         have hB : execStmt c inBlock s (.oldStyle n w) =
             .ok { s with contents := upd s.contents n (fun o => { o with kind := wrapK w }) } := by
-          simp only [execStmt, handleOldStyle, hci, hl, hoc, hok, if_true]
+          simp only [execStmt, handleOldStyle, hci, hl, hoc, hcond, if_true]
           cases w <;> simp [wrapK]
         have hP : PySem.execStmt c ns (.oldStyle n w) =
             .ok (ns.map (fun p => if p.1 = n then (n, wrapO w o) else p)) := by
@@ -1046,16 +1067,16 @@ theorem sim_oldStyle {c : Ctx} {sn sn' : Seen} {s : State} {ns : PySem.Ns} (R : 
             have hbb := huniq b hb eb
             subst hbb
             rw [if_pos e, if_pos eb]
-            subst hod
             have hp : ∀ x : Member, x.cls = .function → postProcess c x = x := by intro x hx; simp [postProcess, hx]
             have hco := congrArg View.co hv
             have hdoc := congrArg View.doc hv
             rw [viewB, hp _ hmc] at hco hdoc
-            have hmk' : kindClass m = .method := by unfold kindClass; rw [hmc, hmk]
-            simp only [viewP, hmk', hmc, PySem.coroutine, PySem.underlying, PySem.rawDoc] at hco hdoc
-            cases w <;>
+            have hnv : kindClass m ≠ .variable := by
+              unfold kindClass; rw [hmc]; rcases hmk with h | h | h <;> rw [h] <;> simp
+            simp only [viewP, hmc, if_neg hnv] at hco hdoc
+            cases o <;> simp only [PFun] at hpf <;> cases w <;>
               simp [viewB, viewP, wrapK, wrapO, postProcess, hmc, kindClass, PySem.kindClass, PySem.coroutine,
-                PySem.underlying, PySem.rawDoc, e] <;> simp_all
+                PySem.underlying, PySem.rawDoc, e] <;> simp_all [PySem.coroutine, PySem.underlying, PySem.rawDoc]
           · have eb : ¬ b.1 = n := hname ▸ e
             rw [if_neg e, if_neg eb]; exact hv
         · rw [← R.names]
@@ -1063,27 +1084,23 @@ theorem sim_oldStyle {c : Ctx} {sn sn' : Seen} {s : State} {ns : PySem.Ns} (R : 
           apply List.map_congr_left
           intro m _
           by_cases e : m.name = n <;> simp [e]
-        · intro k hk
-          simp only [List.mem_filter] at hk
-          exact R.plainSub k hk.1
+        · exact R.plainSub
         · intro k hk m' hm' e
-          simp only [List.mem_filter, bne_iff_ne, ne_eq] at hk
           simp only [upd, List.mem_map] at hm'
           obtain ⟨m, hm, rfl⟩ := hm'
           by_cases e' : m.name = n
-          · simp only [e', if_true] at e
-            exact absurd e.symm hk.2
+          · simp only [e', if_true]
+            exact ⟨(R.plainB n hpl' m hm e').1, by cases w <;> simp [wrapK]⟩
           · simp only [e', if_false] at e ⊢
-            exact R.plainB k hk.1 m hm e
+            exact R.plainB k hk m hm e
         · intro k hk b' hb' e
-          simp only [List.mem_filter, bne_iff_ne, ne_eq] at hk
           simp only [List.mem_map] at hb'
           obtain ⟨b, hb, rfl⟩ := hb'
           by_cases e' : b.1 = n
-          · simp only [e', if_true] at e
-            exact absurd e.symm hk.2
+          · simp only [e', if_true]
+            cases w <;> simp [wrapO, PFun]
           · simp only [e', if_false] at e ⊢
-            exact R.plainP k hk.1 b hb e
+            exact R.plainP k hk b hb e
         · intro k hk
           simp only [List.mem_filter] at hk
           exact R.docSub k hk.1
@@ -1222,10 +1239,9 @@ theorem sim_docAssign {c : Ctx} {sn sn' : Seen} {s : State} {ns : PySem.Ns} (R :
           · simp only [e', if_true] at e ⊢
             have := R.plainP k hk b hb (e' ▸ e)
             rw [huniq b hb e'] at this
-            obtain ⟨a, d, hod⟩ := this
-            simp only at hod
-            subst hod
-            exact ⟨a, some t, rfl⟩
+            rcases hdo with ⟨a, d, rfl⟩ | ⟨x, d, rfl⟩
+            · simp [setDocO, PFun]
+            · simp [PFun] at this
           · simp only [e', if_false] at e ⊢
             exact R.plainP k hk b hb e
         · intro k hk m' hm' e
@@ -1514,18 +1530,26 @@ theorem exception_tables_agree (n : Name) :
   · have := h1 n (by simpa using hp); simp_all
   · rfl
 
-/-- with the generated tables the exception clause of `Subset.inSubset` holds for every base list -/
+/-- the external base names of a class are written without the `builtins.` prefix -/
+def unqualifiedBases (c : Ctx) (bases : List Base) : Bool :=
+  (extNames c.env (c.env.length + 1) bases).all (fun n => stripBuiltins n == n)
+
+/-- with the generated tables the exception clause of `Subset.inSubset` holds for every base list whose external
+names are written unqualified -/
 theorem basesOk_generated (c : Ctx) (hp : c.pdExc = Tables.Exceptions.pydoctor) (hy : c.pyExc = Tables.Exceptions.builtins)
-    (bases : List Base) : basesOk c bases = true := by
+    (bases : List Base) (hq : unqualifiedBases c bases = true) : basesOk c bases = true := by
+  simp only [unqualifiedBases, List.all_eq_true, beq_iff_eq] at hq
   simp only [basesOk, hp, hy, List.all_eq_true, beq_iff_eq]
-  intro x _
+  intro x hx
+  rw [hq x hx]
   exact exception_tables_agree x
 
-/-- **exception_eq** (full) — with the tables generated from this tree and this interpreter, a class is
-documented as an exception exactly when CPython makes it a subclass of `BaseException`, for every base list. -/
-theorem exception_eq (c : Ctx) (hp : c.pdExc = Tables.Exceptions.pydoctor) (hy : c.pyExc = Tables.Exceptions.builtins)
-    (bases : List Base) : isException c bases = PySem.isException c bases :=
-  exception_eq_of_tables c bases (basesOk_generated c hp hy bases)
+/-- **exception_eq_partial** — with the tables generated from this tree and this interpreter, a class is documented as
+an exception exactly when CPython makes it a subclass of `BaseException`, for every base list whose external names are
+written without `builtins.` (full statement false: `exception_eq_qualified_counterexample`). -/
+theorem exception_eq_partial (c : Ctx) (hp : c.pdExc = Tables.Exceptions.pydoctor) (hy : c.pyExc = Tables.Exceptions.builtins)
+    (bases : List Base) (hq : unqualifiedBases c bases = true) : isException c bases = PySem.isException c bases :=
+  exception_eq_of_tables c bases (basesOk_generated c hp hy bases hq)
 
 /-- `_STD_LIB_EXCEPTIONS` as it was before 769cae3 (the Python 3.8 list) — pre-fix, for the record -/
 def pydoctorExcOld : List Name :=
@@ -1537,6 +1561,13 @@ theorem exception_eq_counterexample_old :
     isException { realCtx false with pdExc := pydoctorExcOld } [.ext "ExceptionGroup".toList] = false ∧
     PySem.isException { realCtx false with pdExc := pydoctorExcOld } [.ext "ExceptionGroup".toList] = true ∧
     isException (realCtx false) [.ext "ExceptionGroup".toList] = true := by decide +kernel
+
+/-- `import builtins; class E(builtins.ValueError)`: `is_exception` compares the expanded name `builtins.ValueError` with
+the table of bare names — documented as a plain class, an exception class for CPython -/
+theorem exception_eq_qualified_counterexample :
+    isException (realCtx false) [.ext "builtins.ValueError".toList] = false ∧
+    PySem.isException (realCtx false) [.ext "builtins.ValueError".toList] = true ∧
+    inSubset (realCtx false) [.classDef "K".toList [.ext "builtins.ValueError".toList] [] none []] = false := by decide +kernel
 
 example : basesOk (realCtx false) [.ext "ExceptionGroup".toList, .ext "object".toList] = true := by decide +kernel
 example : basesOk (realCtx false) [.ext "ValueError".toList] = true := by decide +kernel
@@ -1849,10 +1880,22 @@ example : documented (cx true) [.assign nW .int none, .funcDef nW true [] none, 
 example : docsOf (cx true) [.funcDef nF false [.builtin .classmethod false] (some "first".toList), .funcDef nF false [] none]
     = [none] := by decide
 
-/-- wrapping a method twice the old way trips `assert target_obj.kind is DocumentableKind.METHOD` -/
-theorem oldstyle_double_wrap_asserts :
-    (match scope (cx true) [.funcDef nF false [] none, .oldStyle nF .staticmethod, .oldStyle nF .classmethod] with
-      | .assertionError => true | .ok _ => false) = true := by decide
+/-- wrapping a method the old way again, or after a decorator: the last wrapper decides on both sides (04d150a) -/
+theorem oldstyle_rewrap_last_wins :
+    documented (cx true) [.funcDef nF false [] none, .oldStyle nF .staticmethod, .oldStyle nF .classmethod] = [(nF, .classmethod)] ∧
+    bound (cx true) [.funcDef nF false [] none, .oldStyle nF .staticmethod, .oldStyle nF .classmethod] = [(nF, .classmethod)] ∧
+    documented (cx true) [.funcDef nF true [.builtin .classmethod false] none, .oldStyle nF .staticmethod] = [(nF, .staticmethod)] ∧
+    bound (cx true) [.funcDef nF true [.builtin .classmethod false] none, .oldStyle nF .staticmethod] = [(nF, .staticmethod)] ∧
+    inSubset (cx true) [.funcDef nF true [.builtin .classmethod false] none, .oldStyle nF .staticmethod, .oldStyle nF .classmethod] = true := by
+  decide
+
+/-- the assertion of `_handleOldSchoolMethodDecoration` as it was before 04d150a (`kind is METHOD`) — pre-fix, for the record -/
+def oldStyleAssertFailedOld (k : Kind) : Bool := k != .method
+
+/-- historical (before 04d150a): a second old-style wrapping (the kind is STATIC_METHOD by then) tripped the assertion and
+aborted the run; now the statement list is inside the subset (`oldstyle_rewrap_last_wins`) -/
+theorem oldstyle_double_wrap_asserts_old : oldStyleAssertFailedOld .staticMethod = true ∧ oldStyleAssertFailedOld .method = false := by
+  decide
 
 example : docsOf (cx true) [.funcDef nF false [] (some "\n    Title\n\n      indented\n    ".toList)]
     = [some "Title\n\n  indented".toList] := by decide
